@@ -84,6 +84,10 @@ def default_cases():
     for klen in (2 ** 62, 2 ** 63 - 1, 2 ** 63 - 70, 2 ** 31, 2 ** 32, 2 ** 32 + 2, 2 ** 33 + 1, 2 ** 48 + 1):
         rec = b"\x00" + zz(0) + zz(0) + zz(klen) + b"kk"
         cs.append(("v2 record with key length %d" % klen, 2, good[:61] + zz(len(rec)) + rec))
+    # a header count nothing in the record backs (no key, no value): it has to be refused as corrupt, not allocated for
+    for hcount in (2 ** 61, 2 ** 40, 2 ** 62 + 5):
+        rec = b"\x00" + zz(0) + zz(0) + zz(-1) + zz(-1) + zz(hcount)
+        cs.append(("v2 record announcing %d headers" % hcount, 2, good[:61] + zz(len(rec)) + rec))
     bad_count = bytearray(good)
     bad_count[57:61] = struct.pack(">i", 3)                      # claims 3 records, holds 1
     cs.append(("v2 record count larger than the records present", 2, bytes(bad_count)))
